@@ -23,6 +23,8 @@ TTS = r"^model_selection::train_test_split$"
 SPECS = [
     G("KFold::split accepts every k>=2", r"^<model_selection::kfold::KFold as model_selection::BaseKFold>::split$",
       Field(1, "n_splits"), Int(), [], [("ge", 2)], "reject", int_domain=guards.USIZE),
+    G("KFold::split accepts every k<=n (leave-one-out included)", r"^<model_selection::kfold::KFold as model_selection::BaseKFold>::split$",
+      Field(1, "n_splits"), Dim("rows", 2), "", "nz", "reject"),
     G("train_test_split accepts every test_size>0", TTS, Arg(3), Zero(), "", "p", "reject"),
     G("train_test_split accepts every test_size<=1", TTS, Arg(3),
       Pred(lambda t: t[0] == "const" and t[1] in ("1f32", "1.0f32", "1_f32"), "1f32"), "", "nz", "reject"),
@@ -723,3 +725,6 @@ def run(ck, prog):
     _run_pre_progress(ck, prog)
     from sa import progress
     progress.run_rule(ck, prog, set(DIMENSION_FILES))
+
+
+EXPLANATION += (' KFold::split accepts every k <= n (leave-one-out included).')
